@@ -4,6 +4,8 @@ from __future__ import annotations
 
 import ast
 
+import numpy as np
+
 from .. import AnalysisError
 from ..astutil import raises_class, walk_stmts
 from ..cfg import cfg_of
@@ -174,6 +176,69 @@ def _inline_pred(prog, func, test):
     return src_of(t)
 
 
+def _check_mo_validators(ctx, mo):
+    from ..accessors import AccessorEval, Raised, Rec
+    from ..symarr import NotSymbolic
+
+    prog = ctx.prog
+
+    def outcome(fn, rec, attr_name, value):
+        try:
+            AccessorEval(prog, mo).run_free(fn, [rec, Rec(None, name=attr_name), value], {})
+        except Raised as exc:
+            return exc.args[0]
+        except NotSymbolic as exc:
+            raise AnalysisError(f"{fn.qualname} is outside the accessor-evaluation whitelist: {exc}") from exc
+        return None
+
+    vn = prog.funcs.get("iodata.orbitals.validate_norbab")
+    if vn is None:
+        ctx.violate("R1", "validate_norbab is gone", relpath=mo.module.relpath, function=mo.qualname, construct="validate_norbab missing")
+    else:
+        rows = []
+        for attr, other in (("norba", "norbb"), ("norbb", "norba")):
+            # (label, kind, stored counts, value, expected)
+            rows += [
+                (f"generalized, {attr} = 3", "generalized", {"norba": None, "norbb": None}, 3, "ValueError"),
+                (f"generalized, {attr} = None", "generalized", {"norba": None, "norbb": None}, None, None),
+                (f"unrestricted, {attr} = None", "unrestricted", {"norba": 5, "norbb": 3}, None, "ValueError"),
+                (f"unrestricted 5/3, {attr} = 4", "unrestricted", {"norba": 5, "norbb": 3}, 4, None),
+                (f"restricted, {attr} = None", "restricted", {"norba": 5, "norbb": 5}, None, "ValueError"),
+                (f"restricted 5/5, {attr} = 5", "restricted", {"norba": 5, "norbb": 5}, 5, None),
+                (f"restricted 5/5, assignment {attr} = 3 (instance still holds 5/5)", "restricted", {"norba": 5, "norbb": 5}, 3, "ValueError"),
+                (f"restricted, construction with {attr} = 5, {other} = 3", "restricted", {attr: 5, other: 3}, 5, "ValueError"),
+            ]
+        bad = []
+        for label, kind, counts, value, want in rows:
+            attr = label.split(",")[1].split("=")[0].replace("assignment", "").replace("construction with", "").strip()
+            rec = Rec(mo, kind=kind, norba=counts["norba"], norbb=counts["norbb"], occs=None, coeffs=None, energies=None, irreps=None, occs_aminusb=None)
+            got = outcome(vn, rec, attr, value)
+            if got != want:
+                bad.append(f"{label}: {'accepted' if got is None else 'raises ' + got}, expected {'acceptance' if want is None else want}")
+        if bad:
+            ctx.violate("R1", f"validate_norbab: {bad[0]} ({len(bad)} of {len(rows)} rows of the decision table differ)", vn, vn.node, construct=f"validate_norbab: {bad[0]}"[:160])
+        else:
+            ctx.ok("R1", f"validate_norbab, evaluated on {len(rows)} rows (kind x stored counts x assigned value, on assignment and at construction): None iff generalized; norba == norbb for restricted", vn.where)
+    vo = prog.funcs.get("iodata.orbitals.validate_occs_aminusb")
+    if vo is None:
+        ctx.violate("R1", "validate_occs_aminusb is gone", relpath=mo.module.relpath, function=mo.qualname, construct="validate_occs_aminusb missing")
+    else:
+        bad = []
+        n = 0
+        for kind in ("restricted", "unrestricted", "generalized"):
+            for value, vlabel in ((None, "None"), (np.array([1.0, 0.0]), "an array")):
+                want = "ValueError" if (kind != "restricted" and value is not None) else None
+                rec = Rec(mo, kind=kind, norba=2 if kind != "generalized" else None, norbb=2 if kind != "generalized" else None, occs=None, coeffs=None, energies=None, irreps=None, occs_aminusb=None)
+                got = outcome(vo, rec, "occs_aminusb", value)
+                n += 1
+                if got != want:
+                    bad.append(f"{kind}, occs_aminusb = {vlabel}: {'accepted' if got is None else 'raises ' + got}, expected {'acceptance' if want is None else want}")
+        if bad:
+            ctx.violate("R1", f"validate_occs_aminusb: {bad[0]}", vo, vo.node, construct=f"validate_occs_aminusb: {bad[0]}"[:160])
+        else:
+            ctx.ok("R1", f"validate_occs_aminusb, evaluated on {n} rows: a value is accepted only for restricted orbitals", vo.where)
+
+
 def run(ctx):
     prog = ctx.prog
     ctx.clauses_decided = ["R1 validator schema", "R2 generalized refuses spin-resolved access", "R3 slice templates", "R4 setters write both stored fields consistently", "R5 derived counts", "R6 nbasis dispatch"]
@@ -230,25 +295,10 @@ def run(ctx):
         ctx.ok("R1", "occs_aminusb refused unless restricted (validate_occs_aminusb installed)", f"{mo.module.relpath}:{mof['occs_aminusb']['stmt'].lineno}")
     else:
         ctx.violate("R1", "occs_aminusb has no kind validator", relpath=mo.module.relpath, function=mo.qualname, construct="occs_aminusb validator")
-    # the two validator functions themselves
-    vn = prog.funcs.get("iodata.orbitals.validate_norbab")
-    if vn is not None:
-        raises = [s for s in walk_stmts(vn.body) if isinstance(s, ast.Raise)]
-        txt = src_of(vn.node)
-        cond = ["kind == 'generalized'" in txt, "value is not None" in txt, "value is None" in txt, "kind == 'restricted'" in txt, "value != norb_other" in txt or "!=" in txt]
-        if len(raises) >= 3 and all(cond):
-            ctx.ok("R1", "validate_norbab: None iff generalized; norba == norbb for restricted (3 rejections)", vn.where)
-        else:
-            ctx.violate("R1", "validate_norbab no longer rejects (generalized with counts / missing counts / restricted with norba != norbb)", vn, vn.node, construct="validate_norbab rejections")
-    vo = prog.funcs.get("iodata.orbitals.validate_occs_aminusb")
-    if vo is not None:
-        raises = [s for s in walk_stmts(vo.body) if isinstance(s, ast.Raise)]
-        ifs = [s for s in walk_stmts(vo.body) if isinstance(s, ast.If)]
-        okk = len(raises) == 1 and len(ifs) == 1 and "kind != 'restricted'" in src_of(ifs[0].test) and "value is not None" in src_of(ifs[0].test) and isinstance(ifs[0].test, ast.BoolOp) and isinstance(ifs[0].test.op, ast.And)
-        if okk:
-            ctx.ok("R1", "validate_occs_aminusb rejects a value unless kind is restricted", vo.where)
-        else:
-            ctx.violate("R1", "validate_occs_aminusb does not reject (non-restricted kind with a value)", vo, vo.node, construct="validate_occs_aminusb test")
+    # the two validator functions themselves: evaluated on the decision table of (kind, stored counts, assigned field,
+    # assigned value).  attrs calls a validator with the *new* value while the instance still holds the old one (on
+    # assignment) or already holds all new values (at construction): both situations are rows of the table.
+    _check_mo_validators(ctx, mo)
     want_sh = {
         "angmoms": ("shape", ("('coeffs', 1)",)), "kinds": ("shape", ("('coeffs', 1)",)),
         "exponents": ("shape", ("('coeffs', 0)",)), "coeffs": ("shape", ("('exponents', 0)", "('kinds', 0)")),
